@@ -36,6 +36,16 @@ class TaggedStats:
         return other
 
 
+def _aggregate_through_api(recs, mode):
+    """the aggregate of ONE combination whose repetitions score recs[0], recs[1], ... - through the public grid_search"""
+    GM.built, GM.typed = [], ()
+    GM.table = {(0, r): recs[r] for r in range(len(recs))}
+    best, results = B.grid_search(GM, {"x": [0]}, _score, processes=1, repetitions=len(recs), mode=mode)
+    if len(results) != 1 or best is not results[0]:
+        raise AssertionError("one combination must give one result, which is the best")
+    return results[0]["score"], results[0]["records"]
+
+
 def aggregate_linear(a: int, b: int, c: int, n: int, mi: int) -> bool:
     """
     pre: 1 <= n <= 3
@@ -45,7 +55,9 @@ def aggregate_linear(a: int, b: int, c: int, n: int, mi: int) -> bool:
     hx.begin()
     recs = [a, b, c][:n]
     mode = hx.pick(MODES, mi)
-    got = B._score_model_for_search(recs, mode)
+    got, reported = _aggregate_through_api(recs, mode)
+    if reported != recs:
+        return hx.end(hx.fail("reported individual scores", got=reported, exp=recs))
     snapshot = [a, b, c][:n]
     if mi == 0:
         exp = a
@@ -83,18 +95,20 @@ def aggregate_dispatch(a: int, b: int, mv: int, vv: int, mi: int) -> bool:
         if mi >= 8:
             hx.reach('invalid_mode')
             try:
-                B._score_model_for_search(recs, 8 if mi == 8 else -1)
+                _aggregate_through_api(recs, 8 if mi == 8 else -1)
                 return hx.end(hx.fail("invalid mode accepted"))
             except ValueError:
                 return hx.end(st.calls == [])
         mode = hx.pick(MODES, mi)
-        got = B._score_model_for_search(recs, mode)
+        got, reported = _aggregate_through_api(recs, mode)
+        if reported != recs:
+            return hx.end(hx.fail("reported individual scores", got=reported, exp=recs))
         if mi in (2, 3):
             hx.reach('mean')
-            ok = len(st.calls) == 1 and st.calls[0][0] == "mean" and st.calls[0][1] is recs and got is mv
+            ok = len(st.calls) == 1 and st.calls[0][0] == "mean" and list(st.calls[0][1]) == recs and got is mv
         elif mi in (6, 7):
             hx.reach('variance')
-            ok = len(st.calls) == 1 and st.calls[0][0] == "variance" and st.calls[0][1] is recs and got is vv
+            ok = len(st.calls) == 1 and st.calls[0][0] == "variance" and list(st.calls[0][1]) == recs and got is vv
         else:
             ok = st.calls == []
         if not ok:
@@ -299,7 +313,7 @@ ASSUMPTIONS = ["the score function is a table lookup by (combination, repetition
 def obligations(tier):
     enc = (B.grid_search, B._run_model_for_search, B._score_model_for_search)
     obs = [
-        X("aggregate_linear", aggregate_linear, labels=("min", "max", "sum"), timeout=300, encoded=(B._score_model_for_search,)),
+        X("aggregate_linear", aggregate_linear, labels=("min", "max", "sum"), timeout=300, encoded=(B.grid_search,)),
         X("aggregate_dispatch", aggregate_dispatch, labels=("mean", "variance", "invalid_mode"), timeout=300,
           encoded=(B._score_model_for_search,)),
         X("selection", selection, parts=[{"k": k, "procs": p} for k in ((1, 2, 3, 4) if tier == "quick" else (1, 2, 3, 4, 5, 6)) for p in (1, 2) if not (p == 2 and k == 1) and not (k == 5 and tier != "quick")] +
